@@ -221,3 +221,13 @@ def unwrap_plain_insdel(root):
     for m in root.find_all(lambda t: t.name in ('ins', 'del')):
         m.unwrap()
     return root
+
+
+
+def page_title(soup):
+    """The page's title, written independently of the implementation: the text of the first <title> element that is not part of
+    embedded SVG / MathML (there a title is a tooltip of the graphic); '' when there is none or it has element children."""
+    for t in soup.find_all('title'):
+        if t.find_parent(['svg', 'math']) is None:
+            return t.string or ''
+    return ''
